@@ -3059,9 +3059,19 @@ static void build_stmt(WorkList *list, ScopeStack *scopes, ASTNode *stmt, int in
                 }
             }
             
-            /* Register in environment */
+            /* Register in environment (a function-typed variable keeps its signature so that
+             * the type of a call through it is known when the call is emitted) */
+            TypeInfo *let_type_info = NULL;
+            if (stmt->as.let.var_type == TYPE_FUNCTION && stmt->as.let.fn_sig) {
+                let_type_info = malloc(sizeof(TypeInfo));
+                if (let_type_info) {
+                    memset(let_type_info, 0, sizeof(TypeInfo));
+                    let_type_info->base_type = TYPE_FUNCTION;
+                    let_type_info->fn_sig = stmt->as.let.fn_sig;
+                }
+            }
             env_define_var_with_type_info(env, stmt->as.let.name, stmt->as.let.var_type,
-                                         stmt->as.let.element_type, NULL, stmt->as.let.is_mut, create_void());
+                                         stmt->as.let.element_type, let_type_info, stmt->as.let.is_mut, create_void());
 
             /* Track variable for GC cleanup if needed */
             scope_add_var(scopes, stmt->as.let.name, stmt->as.let.var_type, stmt->as.let.type_name, env);
